@@ -174,15 +174,17 @@ class VariedLayout(mr.Layout):
         if self.spec.get('ccomments') and self._next() % 3 == 0:
             self.applied.add('c-comment-inside-card')
             return [['c comment inside a card', 'C', '  c  1 2 3',
-                     'c fill=9 imp:n=0'][self._next() % 4]]
+                     'c fill=9 imp:n=0', 'c\tafter a tab', ' C\t1 2 3',
+                     'c\t'][self._next() % 7]]
         return []
 
     def between_cards(self, block, index):
         if self.spec.get('ccomments') and self._next() % 3 == 0:
             self.applied.add('c-comment-between-cards')
-            k = self._next() % 4
+            k = self._next() % 6
             return [['c a comment line'], ['C'], ['   c  another', 'c'],
-                    ['c 99 0 -1 imp:n=1']][k]
+                    ['c 99 0 -1 imp:n=1'], ['c\ttab after the c'],
+                    ['  C\t7 0 -1 imp:n=1', 'c\t']][k]
         return []
 
     def message(self, deck):
